@@ -2,30 +2,36 @@
 (* Judge of what the REAL daemon did (C31).  Events, one transfer = one tid:
    i = 0   {ev:"transfer", mode, unit, hasdecl, declared, payload:[bytes as written to the pipe /
             the file], dlg:[{d,t}] = the processor hook's protocol lines projected to tokens,
-            probed: the probe inside the daemon ran}
-   i >= 1  {ev:"var", name, sent:{present,kind,val,elems,exported}, obs:{state,val,elems,idx,exported}}
-            texts are byte sequences; obs is what bash itself reported inside the daemon's shell
+            probed: the probe inside the daemon ran,
+            marker:{present, names} = the PKGCORE_NONEXPORTED_VARS entry of THIS mapping}
+   i >= 1  {ev:"var", name, sent:{present,kind,val,elems}, obs:{state,val,elems,idx,exported}}
+            texts are byte sequences; obs is what bash itself reported inside the daemon's shell;
+            the expected export flag is derived here from the marker of the transfer event the
+            variable belongs to (the last transfer event read), never from earlier transfers
    and, independent of the daemon, the binding of the bash word model:
            {ev:"word", w:[chars], ok, val:[chars]}   what the real bash made of the word        *)
 EXTENDS EnvTransfer, EnvTransfer_Quote, TraceLib
-VARIABLE l
+VARIABLES l, hdr
 
 JudgeTransfer(e) ==
     (IF e.hasdecl /\ ~FramingOK(e.declared, e.payload, e.unit) THEN {"Framing"} ELSE {})
     \cup (IF Acknowledged(e.mode, e.dlg) THEN {} ELSE {"TransferAcknowledged"})
     \cup (IF DialogueOK(e.mode, e.dlg) THEN {} ELSE {"NextRequestAnswered"})
     \cup (IF e.probed THEN {} ELSE {"ShellObserved"})
-JudgeVar(e) == ArrivalClauses(e.sent, e.obs)
+JudgeVar(e) == ArrivalClauses([present |-> e.sent.present, kind |-> e.sent.kind, val |-> e.sent.val, elems |-> e.sent.elems,
+                               exported |-> ExpectedExported(hdr.marker, e.name)], e.obs)
 JudgeWord(e) == LET m == Word(e.w) IN
     IF m.ok /\ (~e.ok \/ e.val # m.val) THEN {"BashModel"} ELSE {}
 Judge(e) == CASE e.ev = "transfer" -> JudgeTransfer(e)
               [] e.ev = "var"      -> JudgeVar(e)
               [] e.ev = "word"     -> JudgeWord(e)
               [] OTHER             -> {"UnknownEvent"}
-TraceInit == l = 0
+NoHdr == [marker |-> [present |-> FALSE, names |-> <<>>]]
+TraceInit == l = 0 /\ hdr = NoHdr
 TraceNext == /\ l < Len(Tr)
              /\ l' = l + 1
+             /\ hdr' = IF Tr[l'].ev = "transfer" THEN [marker |-> Tr[l'].marker] ELSE hdr
              /\ Report(Tr[l'].tid, Tr[l'].i, Judge(Tr[l']))
              /\ EndMark(l')
-TraceSpec == TraceInit /\ [][TraceNext]_l
+TraceSpec == TraceInit /\ [][TraceNext]_<<l, hdr>>
 =============================================================================
